@@ -10,10 +10,32 @@ import vlib
 # resilient driver runs
 # ----------------------------------------------------------------------------------------------
 
+def _drive(binary, reqs, timeout):
+    """one driver process over reqs -> (decoded replies, full stderr, exit status)"""
+    import subprocess
+    data = "".join(json.dumps(r, ensure_ascii=True) + "\n" for r in reqs)
+    try:
+        p = subprocess.run([binary], input=data, capture_output=True, text=True, timeout=timeout)
+        out, err, rc = p.stdout, p.stderr, p.returncode
+    except subprocess.TimeoutExpired as e:
+        out = e.stdout if isinstance(e.stdout, str) else (e.stdout or b"").decode(errors="replace")
+        err, rc = "driver timed out", -1
+    res = []
+    for line in out.split("\n"):
+        line = line.strip(" \r\t")
+        if line:
+            try:
+                res.append(json.loads(line))
+            except Exception:
+                res.append({"error": "unparsable reply", "raw": line[:200]})
+    return res, err, rc
+
+
 def run_resilient(ctx, reqs, chunk=400, timeout=1800):
     """Like ctx.impl, but a request that kills the driver process (a panic in a goroutine the driver
-    cannot recover, a runtime fatal error) is answered {"crash": <stderr tail>} and the remaining
+    cannot recover, a runtime fatal error) is answered {"crash": <panic line + stderr tail>} and the remaining
     requests are run in a fresh driver."""
+    import re
     b = ctx.impl_binary()
     if not b:
         return None
@@ -21,19 +43,15 @@ def run_resilient(ctx, reqs, chunk=400, timeout=1800):
     i = 0
     while i < len(reqs):
         part = reqs[i:i + chunk]
-        res = vlib.run_lines(b, part, timeout=timeout)
-        dead = None
-        for k, r in enumerate(res):
-            if isinstance(r, dict) and str(r.get("error", "")).startswith("no reply"):
-                dead = k
-                break
-        if dead is None:
-            out += res
+        res, err, rc = _drive(b, part, timeout)
+        if len(res) >= len(part):
+            out += res[:len(part)]
             i += len(part)
             continue
-        out += res[:dead]
-        out.append({"crash": res[dead].get("stderr", "")[-1500:] or "driver died without output"})
-        i += dead + 1
+        m = re.search(r"^(panic: .*|fatal error: .*)$", err, re.M)
+        out += res
+        out.append({"crash": ((m.group(1) + "\n...\n") if m else "") + (err[-1200:] or f"driver exited with status {rc} without output")})
+        i += len(res) + 1
     return out
 
 
@@ -65,13 +83,24 @@ def gen_label(rng, names, bad=0.03):
 def gen_kv(rng, keys):
     n = rng.choice([0, 0, 1, 2, 3])
     ks = rng.sample(keys, min(n, len(keys)))
-    return sorted([k, rng.choice(["1", "", "v", "x y", "a=b", "true"])] for k in ks)
+    return sorted([k, rng.choice(["1", "", "v", "x y", "a=b", "true", "v\n", " v", "a\tb", "l1\nl2", "null", "0"])] for k in ks)
+
+
+# commands whose exact bytes matter: line breaks at either end, several lines, tabs, trailing blanks, CRLF, quotes
+COMMANDS = ["a\nb\n", "set -e\nmake all\n", "\necho x", "echo x  ", "\techo x", "echo a\r\necho b\r\n", "echo x\n\n", "echo x\n\n\n",
+            "if true; then\n  echo y\nfi", " echo lead", "echo 'q' \"d\" \\ back", "", "# not a comment", "echo x\n", "x\n \n", "a\n\nb",
+            "echo {a,b} $HOME `id` | cat > out", "true # c", "- dash", "key: value", "yes", "null", "123", "[x]", "{x}", "a: b\n", "|", ">", "%x", "@x", "&a", "*a",
+            "!tag", "'single", "\"double", "x #", "\\n"]
+
+
+def gen_command(rng, name):
+    return rng.choice(COMMANDS) if rng.random() < 0.3 else "echo " + name
 
 
 def gen_target(rng, name, names, mk=False, faults=True):
     """One target DTO. mk=True restricts to what a Makefile annotation can express."""
     f = (lambda p: rng.random() < p) if faults else (lambda p: False)
-    t = {"name": name, "command": "echo " + name, "deps": [], "inputs": [], "excludes": [], "outputs": [],
+    t = {"name": name, "command": gen_command(rng, name), "deps": [], "inputs": [], "excludes": [], "outputs": [],
          "bin_output": "", "checks": [], "tags": [], "fingerprint": [], "env": [], "platforms": None, "timeout": ""}
     t["deps"] = [gen_label(rng, names, 0.03 if faults else 0) for _ in range(rng.choice([0, 0, 1, 2, 3]))]
     ins = []
@@ -192,13 +221,39 @@ def render_json(dto, rng=None):
     return json.dumps(o, indent=rng.choice([None, 1, 2]) if rng else 1)
 
 
+class Block(str):
+    """a string to be written as a YAML literal block scalar (`|`, `|-`, `|+`)"""
+
+
+def block_ok(s):
+    body = s.rstrip("\n")
+    return bool(body) and "\r" not in s and all(not l.startswith((" ", "\t")) and l == l.rstrip() for l in body.split("\n")) \
+        and body.split("\n")[0] != ""
+
+
+def _block_lines(key_prefix, s, ind):
+    body = s.rstrip("\n")
+    trailing = len(s) - len(body)
+    ind_ = " " * ind
+    lines = [key_prefix + ("|-" if trailing == 0 else "|" if trailing == 1 else "|+")]
+    lines += [(ind_ + l) if l else "" for l in body.split("\n")]
+    lines += [""] * max(0, trailing - 1)
+    return lines
+
+
+def _scalar(v):
+    return q(v) if isinstance(v, str) else json.dumps(v)
+
+
 def _yaml_lines(o, ind):
-    """Block-style YAML of a JSON-like value (dict / list / str), double-quoted scalars."""
+    """Block-style YAML of a JSON-like value (dict / list / scalars), double-quoted strings, `Block` strings as literal blocks."""
     pad = " " * ind
     out = []
     if isinstance(o, dict):
         for k, v in o.items():
-            if isinstance(v, (dict, list)) and v:
+            if isinstance(v, Block):
+                out += _block_lines(f"{pad}{k}: ", v, ind + 2)
+            elif isinstance(v, (dict, list)) and v:
                 out.append(f"{pad}{k}:")
                 out += _yaml_lines(v, ind + 2)
             elif isinstance(v, list):
@@ -206,23 +261,29 @@ def _yaml_lines(o, ind):
             elif isinstance(v, dict):
                 out.append(f"{pad}{k}: {{}}")
             else:
-                out.append(f"{pad}{k}: {q(v)}")
+                out.append(f"{pad}{_scalar(k) if not isinstance(k, str) else k}: {_scalar(v)}")
     else:
         for v in o:
             if v is None:
                 out.append(f"{pad}- ~")
+            elif isinstance(v, list):
+                out.append(f"{pad}- {json.dumps(v)}")
             elif isinstance(v, dict):
                 sub = _yaml_lines(v, ind + 2)
                 out.append(f"{pad}- {sub[0].lstrip()}")
                 out += sub[1:]
             else:
-                out.append(f"{pad}- {q(v)}")
+                out.append(f"{pad}- {_scalar(v)}")
     return out
 
 
 def render_yaml(dto, rng=None):
     ee = bool(rng) and rng.random() < 0.25
     o = {"targets": [_tjson(t, ee) for t in dto["targets"]]}
+    if rng:
+        for t in o["targets"]:
+            if t and block_ok(t["command"]) and rng.random() < 0.5:
+                t["command"] = Block(t["command"])
     if dto["aliases"]:
         o["aliases"] = dto["aliases"]
     if dto["default_platforms"] is not None:
@@ -305,6 +366,75 @@ def render_script(t, rng=None):
         out.append("# " + l)
     out += ["", "echo hi"]
     return "\n".join(out) + "\n"
+
+
+def star_lit(v):
+    """Starlark literal of a python value"""
+    if v is None:
+        return "None"
+    if v is True:
+        return "True"
+    if v is False:
+        return "False"
+    if isinstance(v, str):
+        return q(v)
+    if isinstance(v, (int, float)):
+        return repr(v)
+    if isinstance(v, list):
+        return "[" + ", ".join(star_lit(x) for x in v) + "]"
+    if isinstance(v, dict):
+        return "{" + ", ".join(f"{star_lit(k)}: {star_lit(x)}" for k, x in v.items()) + "}"
+    raise ValueError(v)
+
+
+WRONG_VALUES = [30, -1, 0, 1.5, True, False, None, [], ["x"], [1], [None], [["x"]], [{"a": "b"}], {}, {"k": "v"}, {"k": 1}, {"k": None}, {"k": ["v"]},
+                "str", "", 10 ** 30, [True], {"command": 1}, [{"command": 1}], [{"expected_output": "x"}], [{"command": "c", "expected_output": 2}]]
+TARGET_FIELDS = ["name", "command", "dependencies", "inputs", "exclude_inputs", "outputs", "bin_output", "output_checks", "tags", "fingerprint",
+                 "platforms", "environment_variables", "timeout"]
+
+
+def typed_corruptions():
+    """every field of a target / alias / package given every wrongly (and some rightly) typed value, as
+    [(file name, text, description)] for JSON, YAML (block and flow) and Starlark, plus Makefile / script annotations"""
+    base = {"name": "a", "command": "c", "dependencies": [":b"], "inputs": ["a.txt"], "exclude_inputs": ["b.txt"], "outputs": ["o"], "bin_output": "bin/a",
+            "output_checks": [{"command": "true"}], "tags": ["t"], "fingerprint": {"k": "v"}, "platforms": ["linux/amd64"],
+            "environment_variables": {"E": "1"}, "timeout": "5s"}
+    out = []
+    for f in TARGET_FIELDS:
+        for v in WRONG_VALUES:
+            t = dict(base); t[f] = v
+            pk = {"targets": [t, {"name": "b", "command": "x"}]}
+            d = f"target.{f}={json.dumps(v)}"
+            out.append(("BUILD.json", json.dumps(pk), d))
+            out.append(("BUILD.yaml", "\n".join(_yaml_lines(pk, 0)) + "\n", d))
+            out.append(("BUILD.yaml", json.dumps(pk), d + " (flow)"))
+            try:
+                args = ", ".join(f"{k} = {star_lit(x)}" for k, x in t.items())
+                out.append(("BUILD.star", f"target({args})\ntarget(name = \"b\", command = \"x\")\n", d))
+            except ValueError:
+                pass
+            if f not in ("command", "exclude_inputs", "bin_output", "output_checks"):
+                ann = {k: x for k, x in t.items() if k not in ("command", "exclude_inputs", "bin_output", "output_checks")}
+                lines = ["# " + l for l in _yaml_lines(ann, 0)]
+                out.append(("Makefile", "# @grog\n" + "\n".join(lines) + "\ngoal:\n\ttrue\n", d))
+                ann.pop("outputs", None)
+                lines = ["# " + l for l in _yaml_lines(ann, 0)]
+                out.append(("x.grog.sh", "#!/bin/sh\n# @grog\n" + "\n".join(lines) + "\necho\n", d))
+    for f in ("name", "actual"):
+        for v in WRONG_VALUES:
+            al = {"name": "al", "actual": ":a"}; al[f] = v
+            pk = {"targets": [{"name": "a", "command": "c"}], "aliases": [al]}
+            d = f"alias.{f}={json.dumps(v)}"
+            out.append(("BUILD.json", json.dumps(pk), d))
+            out.append(("BUILD.yaml", "\n".join(_yaml_lines(pk, 0)) + "\n", d))
+            out.append(("BUILD.star", f"target(name = \"a\", command = \"c\")\nalias(name = {star_lit(al['name'])}, actual = {star_lit(al['actual'])})\n", d))
+    for f in ("targets", "aliases", "default_platforms", "environments"):
+        for v in WRONG_VALUES:
+            pk = {"targets": [{"name": "a", "command": "c"}]}; pk[f] = v
+            d = f"package.{f}={json.dumps(v)}"
+            out.append(("BUILD.json", json.dumps(pk), d))
+            out.append(("BUILD.yaml", json.dumps(pk), d + " (flow)"))
+    return out
 
 
 # ----------------------------------------------------------------------------------------------
